@@ -114,6 +114,22 @@ func clientHello() []byte {
 	return cc.buf.Bytes()
 }
 
+func defaultClientHello() []byte {
+	cc := &captureConn{}
+	tls.Client(cc, helloConfig("hello_sni")).Handshake()
+	return cc.buf.Bytes()
+}
+
+func defaultHelloLen() int {
+	if v := os.Getenv("C03_HELLO_SNI_LEN"); v != "" {
+		n, _ := strconv.Atoi(v)
+		return n
+	}
+	n := len(defaultClientHello())
+	os.Setenv("C03_HELLO_SNI_LEN", strconv.Itoa(n))
+	return n
+}
+
 // helloLen is the ClientHello length used to enumerate truncation offsets; workers take it from the parent
 // so that scenario indices agree between the processes.
 func helloLen() int {
@@ -133,14 +149,28 @@ func mitmScenarios(tier string, add func(Scenario)) {
 		}
 	}
 	// a ClientHello (no SNI) cut at every offset
-	trunc := []string{"origin_form_no_host"}
-	if tier == "thorough" {
-		trunc = []string{"origin_form_no_host", "authority_port", "ipv6_noport"}
-	}
 	n := helloLen()
-	for _, c := range trunc {
+	for _, c := range connectVariants() {
+		if tier != "thorough" && c.name != "origin_form_no_host" {
+			continue // thorough: every CONNECT shape
+		}
 		for k := 0; k <= n; k++ {
-			add(Scenario{Kind: "mitm", Script: c, Follow: "hello_truncated", K: k})
+			add(Scenario{Kind: "mitm", Script: c.name, Follow: "hello_truncated", K: k})
+		}
+	}
+	if tier == "thorough" {
+		// every prefix of the CONNECT request itself (then EOF), for every shape
+		for _, c := range connectVariants() {
+			for k := 0; k < len(c.wire); k++ {
+				add(Scenario{Kind: "mitm", Script: c.name, Follow: "connect_prefix", K: k})
+			}
+		}
+		// every prefix of crypto/tls's default ClientHello with SNI (TLS 1.3 key shares) for four shapes
+		nd := defaultHelloLen()
+		for _, c := range []string{"authority_port", "origin_form_no_host", "ipv6_noport", "port_only"} {
+			for k := 0; k <= nd; k++ {
+				add(Scenario{Kind: "mitm", Script: c, Follow: "hello_sni_truncated", K: k})
+			}
 		}
 	}
 }
@@ -163,7 +193,7 @@ func mitmClass(s *Scenario) string {
 	switch f {
 	case "hello_nosni", "hello_tls12_nosni", "hello_truncated":
 		f = "tls_hello_without_sni"
-	case "hello_sni":
+	case "hello_sni", "hello_sni_truncated":
 		f = "tls_hello_with_sni"
 	case "garbage_tls_record", "garbage_binary", "one_byte_0x16":
 		f = "garbage"
@@ -219,7 +249,13 @@ func runMITMStream(s *Scenario, kind string, quiet time.Duration) *runOut {
 		cl.QuietTimeout = quiet
 	}
 	stream := lookupConnect(s.Script)
+	if s.Follow == "connect_prefix" {
+		stream = stream[:s.K]
+	}
 	cl.Send([]byte(stream))
+	if s.Follow == "connect_prefix" {
+		cl.CloseWrite()
+	}
 	follow := "-"
 	connect := ""
 	if s.Follow == "close_without_reading" {
@@ -311,8 +347,13 @@ func mitmFollowUp(s *Scenario, cl *h1harness.Client, report func(sym, detail str
 			st = f[1]
 		}
 		return "handshake_ok," + st
-	case "hello_truncated":
+	case "connect_prefix":
+		return "?" // a strict prefix of a CONNECT request never earns a 200
+	case "hello_truncated", "hello_sni_truncated":
 		h := clientHello()
+		if s.Follow == "hello_sni_truncated" {
+			h = defaultClientHello()
+		}
 		k := s.K
 		if k > len(h) {
 			k = len(h)
